@@ -72,7 +72,8 @@ func genFrames(c *core.Chooser, maxFrames int, maxLen int, small bool) [][]byte 
 			case 1:
 				l = 4 + c.Size(2000, 12, 16, 255, 256, 1024)
 			default:
-				l = 4 + c.Size(maxLen-4, 4092, 4096, 65531, 65532)
+				// around the sizes a block-wise reader would count in: 4 KiB, and every multiple of 8 KiB / 16 KiB up to 64 KiB
+				l = 4 + c.Size(maxLen-4, 4092, 4096, 8188, 8190, 16380, 16382, 32764, 32766, 49148, 49150, 65531, 65532)
 			}
 		}
 		f := make([]byte, l)
